@@ -247,6 +247,9 @@ def do_op(ctx, aid, oi, table, op):
     if k == "send":
         _ch(table, op[1]).send(mkitem(op[2], op[3]))
         return ("ok",)
+    if k == "send_raw":
+        _ch(table, op[1]).send(_filedata(op[2]))
+        return ("ok",)
     if k == "send_bad":
         # unserialisable item: must raise DumpError before anything is written
         _ch(table, op[1]).send(("#IT:%s#" % op[2], object()))
@@ -408,8 +411,36 @@ def do_op(ctx, aid, oi, table, op):
         # busy loop: yield points only, until the latch is set (or forever)
         l = ctx.latch(op[1]) if len(op) > 1 and op[1] else None
         while l is None or not l.flag:
-            s.switch("busy", "")
+            s.sleep(0.05)  # 50 ms of computation, then an interruptible point
         return ("ok",)
+    if k == "swallow_busy":
+        # keeps running and swallows every KeyboardInterrupt (the worst-behaved remote program)
+        n = 0
+        while True:
+            try:
+                s.sleep(0.05)
+            except KeyboardInterrupt:
+                n += 1
+                ctx.rec(aid, oi, "sub", ("swallowed", n))
+    if k == "signal":
+        # harness-level: deliver a signal to a simulated process by name
+        from .gwsim import SIGS
+        for p in ctx.w.procs:
+            if p.name == op[1]:
+                s.probe("fault:" + op[2])
+                ctx.w.signal(p, SIGS[op[2]])
+                return ("ok", p.name)
+        return ("noproc",)
+    if k == "makegateway":
+        gw = ctx.group.makegateway(op[1])
+        ctx.gws.append(gw)
+        t2 = ctx.table((s.current.proc.pid, len(ctx.gws) - 1))
+        t2["__gw__"] = gw
+        return ("gw", str(gw.id))
+    if k == "grouplen":
+        return ("val", len(ctx.group))
+    if k == "now":
+        return ("val", s.now)
     if k == "raise":
         raise BodyError(op[1] if len(op) > 1 else "body boom")
     if k == "raise_sys":
@@ -487,8 +518,9 @@ def do_op(ctx, aid, oi, table, op):
     if k in ("cycles_i", "cycles_w"):
         return _cycles(ctx, aid, oi, table, op)
     if k == "terminate":
+        t0 = s.now
         ctx.group.terminate(op[1])
-        return ("val", len(ctx.group))
+        return ("val", len(ctx.group), t0, s.now)
     if k == "gwexit":
         ctx.gws[op[1]].exit()
         return ("ok",)
